@@ -292,9 +292,9 @@ def np_apply(op: str, a: list[Any], p: dict[str, Any], mca: MCA) -> Any:
         if op == "arange":
             return np.arange(p["start"], p["stop"], p["step"], dtype=p["dtype"])
         if op == "zeros_like":
-            return np.zeros_like(a[0])
+            return np.zeros_like(a[0], dtype=p.get("dtype"))
         if op == "ones_like":
-            return np.ones_like(a[0])
+            return np.ones_like(a[0], dtype=p.get("dtype"))
         if op == "call_loopy":
             k = p["kernel"]
             if k == "axpy":
@@ -428,9 +428,9 @@ def pt_apply(op: str, a: list[Any], p: dict[str, Any]) -> Any:
     if op == "arange":
         return pt.arange(p["start"], p["stop"], p["step"], dtype=np.dtype(p["dtype"]))
     if op == "zeros_like":
-        return pt.zeros_like(a[0])
+        return pt.zeros_like(a[0], dtype=np.dtype(p["dtype"]) if p.get("dtype") else None)
     if op == "ones_like":
-        return pt.ones_like(a[0])
+        return pt.ones_like(a[0], dtype=np.dtype(p["dtype"]) if p.get("dtype") else None)
     if op == "call_loopy":
         from pytato.loopy import call_loopy
         k = p["kernel"]
